@@ -299,6 +299,13 @@ def run(chk, prog, tier):
     from checks import C08
     C08.stale_rule(chk, prog, ["main"], movers=set(k for k in kinds if k.startswith("asm_assemble")),
                    derive_calls=("asm_get_code", "asm_get_buffer"))
+    # ---- premises in the library that "stdin and FILE give the same result" and the exit status rest on ------------
+    from valib import pipeline as PL
+    from valib import chunk as CH
+    roles = PL.Roles(prog)
+    CH.emitter_shape_rules(chk, prog, roles, want=("DEST", "GRID", "ADV"), rule="SAME")   # chunk grid independent of how the text is split into calls
+    from checks import C19
+    C19.delegation_rule(chk, prog, roles)                                                   # the file entry points return what the string entry points return
     # ---- output file name ---------------------------------------------------------------------------------------------
     bin_calls = [c for fn, f in tf.items() for c in walk(prog.body(f)) if c.get("kind") == "CallExpr" and callee_name(c) == "asm_create_bin_file"]
     chk.require(len(bin_calls) == 1, "OUT", "OUT/writer", loc_str(main), "the binary outputs go through asm_create_bin_file", "%d calls" % len(bin_calls))
